@@ -164,62 +164,125 @@ def _eval_op_cond(v, op, variants):
     return None
 
 
-def check_trivial(ctx, rep, rule='T-trivial'):
-    """what trivial_result returns, per operation: the paths are selected by evaluating their conditions for each of the four
-    operations (match, if-chains and flags are all the same to this), the returned list is characterised by the parameters
-    it is built from and the callees it passes through"""
-    b, ps = rep.explore(ctx, TRIVIAL, rule)
+def _op_cond_holds(r, c):
+    if isinstance(r, tuple):
+        return (c[0] == 'eq' and int(c[1]) == r[1]) or (c[0] == 'notin' and r[1] not in [int(z) for z in c[1]])
+    return (c[0] == 'eq' and bool(c[1]) == r) or (c[0] == 'notin' and int(r) not in [int(z) for z in c[1]])
+
+
+def shortcut_rows(ctx, rep, rule):
+    """decision table of the part of boolean_operation before the sweep, with trivial_result seen through: every returning
+    path is a row (box-corner comparisons with their outcome, conditions on the operation, 'early' | 'full').  Where the test
+    and the per-operation result live (inline, in trivial_result, in a helper of either) makes no difference to the rows."""
+    key = ('shortcut_rows', ctx.config)
+    cache = ctx.__dict__.setdefault('_shortcut', {})
+    if key not in cache:
+        cache[key] = _shortcut_rows(ctx)
+    b, ps, rows, err = cache[key]
     if b is None:
-        return
+        rep.explore(ctx, BOOLOP, rule, expand=(TRIVIAL,))      # reports the anchor / analysability problem
+        return None
+    rep.explore(ctx, BOOLOP, rule, expand=(TRIVIAL,))
+    if err:
+        rep.ob(rule, 'condition-modelled', False, err, loc=b.loc(b.j['line_lo']), reason='cannot-tabulate')
+        return None
+    return b, ps, rows
+
+
+def _shortcut_rows(ctx):
+    try:
+        b, ps = ctx.paths(BOOLOP, expand=(TRIVIAL,))
+    except sym.CannotAnalyse:
+        return None, [], [], None
     variants = ctx.facts().enum_variants('boolean::Operation') or []
+    roles = {2: 's', 3: 'c'}
+    rows = []
+    for p in ps:
+        if p.end != 'return':
+            continue
+        stage = [i for i, e in enumerate(p.events) if e['k'] == 'call' and e.get('depth', 0) == 0 and e['callee'].endswith('::subdivide')]
+        outcome = 'full' if stage else 'early'
+        upto = stage[0] if stage else len(p.events)
+        box, opc = [], []
+        for e in p.events[:upto]:
+            if e['k'] != 'branch' or e.get('depth', 0) > 3:
+                continue
+            v, c = e['val'], e['cond']
+            cc = canon_cmp(v, p, roles)
+            if cc is not None:
+                box.append(((cc[1], cc[2]), c[1] != cc[3]))
+                continue
+            if variants and _eval_op_cond(v, variants[0], variants) is not None:
+                opc.append((v, c))
+                continue
+            if e.get('depth', 0) == 0 or outcome == 'early':
+                return b, ps, [], ('boolean_operation branches on %s before the sweep, which is neither a comparison of box corners nor '
+                                   'a test of the operation' % show(noepoch(v))[:100])
+        rows.append((box, opc, outcome, p))
+    return b, ps, rows, None
+
+
+def _rows_for(rows, val, op, variants):
+    out = []
+    for (box, opc, outcome, p) in rows:
+        if not all(val.get(a) == v for a, v in box):
+            continue
+        if op is not None and not all(_op_cond_holds(_eval_op_cond(v, op, variants), c) for v, c in opc):
+            continue
+        out.append((outcome, p))
+    return out
+
+
+def check_trivial(ctx, rep, rule='T-trivial'):
+    """what the shortcut returns, per operation: the early-return rows of the decision table (shortcut_rows) are selected by
+    evaluating their conditions for each of the four operations (match, if-chains and flags are all the same to this) under
+    every outcome of the four disjointness comparisons; the returned list is characterised by the parameters it is built from
+    and the callees it passes through"""
+    t = shortcut_rows(ctx, rep, rule)
+    if t is None:
+        return
+    b, ps, rows = t
+    variants = ctx.facts().enum_variants('boolean::Operation') or []
+    tb = ctx.facts().body(TRIVIAL)
+    where = (tb or b)
+    loc = where.loc(where.j['line_lo'])
     seen = set()
     for op in variants:
-        outs = []
-        for p in ps:
-            if p.end != 'return':
+        outs = {}
+        for combo in itertools.product((False, True), repeat=4):
+            if not any(combo):
                 continue
-            consistent = True
-            for (v, c) in p.conds:
-                r = _eval_op_cond(v, op, variants)
-                if r is None:
-                    rep.ob(rule, 'dispatch-on-operation', False, 'a path of trivial_result is not selected by the operation alone: %s'
-                           % show(noepoch(v))[:80], loc=b.loc(b.j['line_lo']), reason='cannot-tabulate')
-                    consistent = False
-                    break
-                if isinstance(r, tuple):
-                    ok = (c[0] == 'eq' and int(c[1]) == r[1]) or (c[0] == 'notin' and r[1] not in [int(z) for z in c[1]])
-                else:
-                    ok = (c[0] == 'eq' and bool(c[1]) == r) or (c[0] == 'notin' and int(r) not in [int(z) for z in c[1]])
-                if not ok:
-                    consistent = False
-                    break
-            if consistent:
-                outs.append(p)
+            val = dict(zip(EXPECTED_DISJOINT, combo))
+            for (o, p) in _rows_for(rows, val, op, variants):
+                if o == 'early':
+                    outs[id(p)] = p
+        outs = list(outs.values())
         if not outs:
             continue
         seen.add(op)
         exp = {'Intersection': set(), 'Difference': {'subject'}, 'Union': {'subject', 'clipping'}, 'Xor': {'subject', 'clipping'}}.get(op, set())
         ok = True
-        found, extra_all = set(), set()
+        found_all, extra_all = [], set()
         for p in outs:
             r = strip_upd(p.ret)
             payload = r[4][0] if r[0] == 'agg' and r[5].endswith('MultiPolygon') and r[4] else r
             ps_ = params_in(payload, p) - {'operation'}
             extra = sorted(c for c in calls_in(payload, p) if not TRANSPARENT.search(c) and not re.search(r'Vec::<T>::(new|with_capacity)$', c)
                            and not re.search(r'(::len$|ops::(arith::)?Add::add$)', c))
-            found |= ps_
+            if ps_ != exp and sorted(ps_) not in found_all:
+                found_all.append(sorted(ps_))
             extra_all |= set(extra)
             ok = ok and ps_ == exp and not extra
             if op == 'Intersection':
                 pl = strip_upd(payload)
                 ok = ok and ((pl[0] == 'vec' and pl[1] == ()) or not ps_)
         rep.ob(rule, op, ok,
-               'for disjoint bounding boxes %s must return %s unchanged; it returns a value built from %s%s'
+               'for disjoint bounding boxes %s must return %s unchanged; on some disjoint placement it returns a value built from %s%s'
                % (op, {'Intersection': 'the empty set', 'Difference': 'the subject', 'Union': 'subject ++ clipping',
-                       'Xor': 'subject ++ clipping'}.get(op), sorted(found) or 'nothing', ' through %s' % sorted(extra_all) if extra_all else ''),
-               loc=b.loc(b.j['line_lo']), reason='table-row', expected=sorted(exp), found=sorted(found))
-    rep.rows_compared += len(seen)
-    rep.ob(rule, 'all-operations-covered', seen == set(variants), 'trivial_result handles %s of %s' % (sorted(seen), variants),
+                       'Xor': 'subject ++ clipping'}.get(op), found_all or [sorted(exp)], ' through %s' % sorted(extra_all) if extra_all else ''),
+               loc=loc, reason='table-row', expected=sorted(exp), found=found_all)
+    rep.rows_compared += len(seen) * 15
+    rep.ob(rule, 'all-operations-covered', seen == set(variants), 'the shortcut handles %s of %s' % (sorted(seen), variants),
            reason='floor')
 
 
@@ -265,31 +328,13 @@ EXPECTED_DISJOINT = [('s.min.x', 'c.max.x'), ('c.min.x', 's.max.x'), ('s.min.y',
 
 
 def check_box_test(ctx, rep, rule='B-test'):
-    b, ps = rep.explore(ctx, BOOLOP, rule)
-    if b is None:
+    """which way boolean_operation goes for each outcome of the four disjointness comparisons (16 rows x 4 operations)"""
+    t = shortcut_rows(ctx, rep, rule)
+    if t is None:
         return None
-    roles = {2: 's', 3: 'c'}
-    rows = []
-    atoms = set()
-    for p in ps:
-        if p.end != 'return':
-            continue
-        outcome = 'trivial' if any(True for _ in p.calls('trivial_result')) else ('full' if any(True for _ in p.calls('subdivide')) else 'other')
-        conds = []
-        stage = [i for i, e in enumerate(p.events) if e['k'] == 'call' and e.get('depth', 0) == 0 and
-                 (e['callee'].endswith('trivial_result') or e['callee'].endswith('::subdivide'))]
-        upto = stage[0] if stage else len(p.events)
-        early = [(e['val'], e['cond']) for e in p.events[:upto] if e['k'] == 'branch' and e.get('depth', 0) <= 2]
-        for (v, c) in early:
-            cc = canon_cmp(v, p, roles)
-            if cc is None:
-                rep.ob(rule, 'condition-modelled', False, 'boolean_operation branches on %s, which is not a comparison of box corners'
-                       % show(noepoch(v))[:100], loc=b.loc(b.j['line_lo']), reason='cannot-tabulate')
-                return None
-            val = c[1] != cc[3]
-            conds.append(((cc[1], cc[2]), val))
-            atoms.add((cc[1], cc[2]))
-        rows.append((conds, outcome, p))
+    b, ps, rows = t
+    variants = ctx.facts().enum_variants('boolean::Operation') or []
+    atoms = set(a for (box, _, _, _) in rows for a, _ in box)
     extra = sorted(a for a in atoms if a not in EXPECTED_DISJOINT)
     missing = sorted(a for a in EXPECTED_DISJOINT if a not in atoms)
     rep.ob(rule, 'strict-corner-comparisons', not extra and not missing,
@@ -301,13 +346,18 @@ def check_box_test(ctx, rep, rule='B-test'):
     if not extra and not missing:
         for combo in itertools.product((False, True), repeat=4):
             val = dict(zip(EXPECTED_DISJOINT, combo))
-            outs = set(o for (conds, o, _) in rows if all(val[a] == v for a, v in conds))
-            exp = 'trivial' if any(combo) else 'full'
+            outs = set()
+            for op in variants:
+                got = set(o for (o, _) in _rows_for(rows, val, op, variants))
+                outs |= got or {'none'}
+            exp = 'early' if any(combo) else 'full'
             n += 1
+            names = {'early': 'shortcut', 'full': 'sweep', 'none': 'no'}
             rep.ob(rule, 'row:' + ''.join(str(int(c)) for c in combo), outs == {exp},
                    'with disjointness tests %s the routine takes the %s path, expected %s'
-                   % (dict(('%s>%s' % k, v) for k, v in val.items()), sorted(outs), exp), loc=b.loc(b.j['line_lo']), reason='table-row')
-    rep.rows_compared += n
+                   % (dict(('%s>%s' % k, v) for k, v in val.items()), sorted(names[o] for o in outs), names[exp]),
+                   loc=b.loc(b.j['line_lo']), reason='table-row')
+    rep.rows_compared += n * max(1, len(variants))
     return b, ps
 
 
